@@ -46,10 +46,18 @@ func (r *Reader) readMdat(b *box) (err error) {
 	if r.heic.exif.ol.offset == 0 {
 		return b.close()
 	}
+	// a file may hold several mdat boxes: the item lies in the one whose extent covers it
+	if first, end := int64(r.heic.exif.ol.offset), int64(r.heic.exif.ol.offset)+int64(r.heic.exif.ol.length); first < int64(b.offset) || end > int64(b.offset)+b.size {
+		return b.close()
+	}
 	inner, err := r.newExifBox(b)
 	if err != nil {
 		if logLevelError() {
 			logError().Object("box", inner).Err(err).Send()
+		}
+		// the box is left behind in any case: the reader stands at the next top-level box
+		if cerr := b.close(); cerr != nil {
+			return cerr
 		}
 		return
 	}
@@ -57,6 +65,9 @@ func (r *Reader) readMdat(b *box) (err error) {
 	if err != nil {
 		if logLevelError() {
 			logError().Object("box", inner).Err(err).Send()
+		}
+		if cerr := b.close(); cerr != nil {
+			return cerr
 		}
 		return err
 	}
